@@ -61,9 +61,14 @@ def _gen(ctx):
             res[key] = ctx.tlc(*a, **kw)
         except Exception as ex:
             res[key] = ex
+    # (quick: contacts stay in their initial lifecycle states - MustErr never depends on them; thorough: up
+    #  to two tracked contacts moved, both values of the Impl constant)
+    mcs = [("ImplCurrent", "MC_ServiceAPI.cfg", 1 if quick else 2)]
+    if not quick:
+        mcs.append(("ImplOldIndex", "MC_ServiceAPI_oldindex.cfg", 1))
     jobs = [threading.Thread(target=job, args=("mc_" + impl, "ServiceAPI", cfg),
-                             kwargs=dict(name="mc_" + impl, workers=w, consts={"MaxDev": "1" if quick else "4"}, timeout=1500))
-            for impl, cfg, w in (("ImplCurrent", "MC_ServiceAPI.cfg", 2), ("ImplFixed", "MC_ServiceAPI_fixed.cfg", 1))]
+                             kwargs=dict(name="mc_" + impl, workers=w, consts={"MaxDev": "0" if quick else "2"}, timeout=2400))
+            for impl, cfg, w in mcs]
     # 2. enumeration of walks x final steps
     jobs.append(threading.Thread(target=job, args=("gen", "GenServiceAPI", "Gen_ServiceAPI.cfg"),
                                  kwargs=dict(name="gen", workers=1, consts={"MaxWalk": "2" if quick else "3"}, timeout=1500, heap="8g")))
@@ -265,18 +270,27 @@ def _state_tag(pre):
     return "".join(c for c, k in (("A", "acct"), ("M", "gm"), ("C", "gc")) if pre.get(k)) or "none"
 
 
+def _needs_account():
+    """the RPCs that work on the account group (read from the spec vocabulary; used for naming findings only)"""
+    txt = open(os.path.join(vf.SPECS, "ServiceAPIDefs.tla")).read()
+    m = re.search(r"NeedsAccount == \{(.*?)\}", txt, re.S)
+    return set(re.findall(r'"(\w+)"', m.group(1))) if m else set()
+
+
 def finding_key(line, events):
-    """canonical key of a violation: call site + request shape (+ the state, when the state is the cause)"""
+    """canonical key of a violation: call site + request shape, or call site + "account-group-deactivated"
+    when the deactivated account group is the cause (the same request is answered while it is open)"""
     if line.get("ev") == "helper":
         return "%s:helper:%s:%s" % ("panic" if line["out"] == "panic" else "noerr", line["fn"], line["c"])
     kind = {"panic": "panic", "crash": "crash"}.get(line.get("out"), "noerr")
     rpc, shape = line["rpc"], (line["k"], line["p"], line["s"])
     pre = line.get("pre") or {}
-    same = [e for e in events if e.get("ev") == "rpc" and e.get("rpc") == rpc and (e["k"], e["p"], e["s"]) == shape]
+    same = [e for e in events if e.get("ev") == "rpc" and e.get("rpc") == rpc and (e["k"], e["p"], e["s"]) == shape and e.get("pre")]
     if kind != "noerr" and not pre.get("acct", True):
-        # the same request is answered when the account group is open -> the deactivated account group is the cause
-        if any(e["pre"].get("acct") and e["out"] in ("ok", "err") for e in same) and \
-           not any(e["pre"].get("acct") and e["out"] in ("panic", "crash") for e in same):
+        open_ok = any(e["pre"].get("acct") and e["out"] in ("ok", "err") for e in same)
+        open_bad = any(e["pre"].get("acct") and e["out"] in ("panic", "crash") for e in same)
+        static = rpc in _needs_account() or (rpc == "ActivateGroup" and line["k"] == "gc")
+        if not open_bad and (open_ok or static):
             return "%s:%s:account-group-deactivated" % (kind, rpc)
     sh = "k=%s,p=%s" % (line["k"], line["p"]) + (",s=%s" % line["s"] if line["s"] not in ("-", "sink") else "")
     if kind == "noerr":
@@ -411,7 +425,7 @@ def run(ctx, replay=None):
         "driver_deaths": deaths,
         "concretisations": "bytes inside a shape class are drawn from VERIF_SEED (plain seeded fuzzing inside each class)",
     }
-    ctx.extra["impl"] = {"reopenOldestWins": True}
+    ctx.extra["impl"] = {"reopenOldestWins": False}
     for bid, evs in order[:1] + order[-1:]:
         ctx.add_samples([{"script": bid, "kind": byid[bid]["cfg"].get("kind"),
                           "observed": [{k: e.get(k) for k in ("rpc", "fn", "c", "k", "p", "s", "via", "out", "code") if k in e} for e in evs[:6]]}], limit=4)
